@@ -1,6 +1,6 @@
 """C04 — end-of-stream and abort are relayed faithfully (buffered I/O mode)."""
 import harness
-from specs import relay
+from specs import relay, timeouts
 
 
 def run(ck):
@@ -15,4 +15,7 @@ def run(ck):
     relay.check_copy_half(ck, max_turns=2 if ck.tier == 'quick' else 3)
     relay.check_copy_bidi_completion(ck)
     relay.check_copy_half_abort(ck)
-    ck.post_filter = lambda o: o.label.startswith('C04/') or o.status in ('undecided', 'vacuous') or o.status == 'inconclusive'
+    # "the opposite direction keeps flowing until its own sender finishes": the only other way copy_bidi ends a tunnel is its idle
+    # ticker, which must not fire while either direction -- finished or not -- has been active within the period (shared with C13)
+    timeouts.spec_copy_bidi_tick(ck)
+    ck.post_filter = lambda o: o.label.startswith(('C04/', 'C13/tick/')) or o.status in ('undecided', 'vacuous') or o.status == 'inconclusive'
